@@ -143,6 +143,21 @@ def gen(rng, tier, i):
     p.opt('max_instr', 100000000)
     for name, em in sorted(w.files.items()): p.file(name, em.text())
     p.file('g/m2.c', _twin(w.files['g/m.c'].text()))
+    # a parent with saved argument types (#pragma save_types) and a child that is always compiled from source against it:
+    # the child's compile-time argument checks read the parent's type table, which load_binary() permutes
+    TYPES = [('int', 'x + 1', '1'), ('string', 'x + "s"', '"q"'), ('int *', 'x + ({ 1 })', '({ 2 })'), ('object', 'x', 'this_object()'),
+             ('mapping', 'x', '([ ])'), ('float', 'x', '1.5'), ('mixed *', 'x', '({ })'), ('string *', 'x', '({ "a" })')]
+    tfn = []
+    for k in range(rng.randint(3, 9)):
+        nm = 't' + ''.join(rng.choice('abcdefghijklmnopqrstuvwxyz') for _ in range(rng.randint(2, 6))) + str(k)
+        tfn.append((nm, [rng.choice(TYPES) for _ in range(rng.randint(0, 3))]))
+    tp = '#pragma save_binary\n#pragma save_types\n#pragma strict_types\n'
+    for nm, args in tfn:
+        tp += 'mixed %s(%s) { return %s; }\n' % (nm, ', '.join('%s a%d' % (t[0], j) for j, t in enumerate(args)), '({ ' + ', '.join('a%d' % j for j in range(len(args))) + ' })')
+    tp += 'void warm() { }\n'
+    tc = '#pragma strict_types\ninherit "/g/tp";\nmixed main() {\n return ({ ' + ',\n  '.join('%s(%s)' % (nm, ', '.join(t[2] for t in args)) for nm, args in tfn) + ' });\n}\n'
+    p.file('g/tp.c', tp); p.file('g/tc.c', tc)
+    tnames = [nm for nm, _ in tfn] + ['warm', 'main']
     progs = [x for x in PROGS if x in w.order]
     phases = []
     def load_phase():
@@ -150,7 +165,14 @@ def gen(rng, tier, i):
         cyc = []
         cyc.append(p.cycle(connect(0, 0)) if load_phase.need_connect else None)
         load_phase.need_connect = False
-        p.cycle(send(0, 'do ' + ';'.join('dest /g/%s' % x for x in progs) + '\r\n'))
+        # address-order perturbation: load_binary() re-sorts tables by the addresses of the shared name strings, so the
+        # names are interned in a fresh seeded order (by an object that stays loaded) before the programs come back
+        idents = sorted(set(re.findall(r'\b[A-Za-z_]\w{0,30}\b', ' '.join(em.text() for em in w.files.values()))))
+        idents = sorted(set(idents + tnames))
+        rng.shuffle(idents)
+        p.cycle(send(0, 'do ' + ';'.join('dest /g/%s' % x for x in progs + ['perm', 'tc', 'tp']) + '\r\n'))
+        p.cycle('writefile g/perm.c %s' % enc('string *names() {\n return ({ %s });\n}\nvoid warm() { }\n' % ',\n '.join('"%s"' % n for n in idents[:400])),
+                send(0, 'do call /g/perm warm\r\n'))
         ph['load_cycles'] = {}
         for x in reversed(progs):      # o first, then the inherit chain bottom-up is triggered by m
             pass
@@ -161,6 +183,7 @@ def gen(rng, tier, i):
         ph['run_cycle'] = p.cycle(send(0, 'do xco r /g/m main\r\n'))
         # the twin: same text, never loaded from a binary, run against freshly loaded helpers
         ph['twin_cycle'] = p.cycle(send(0, 'do dest /g/o;dest /g/m2;%sxco r2 /g/m2 main\r\n' % ('call /g/o warm;' if 'o' in progs else '')))
+        ph['typed_cycle'] = p.cycle(send(0, 'do call /g/tp warm;xco t /g/tc main\r\n'))
         phases.append(ph)
     load_phase.need_connect = True
     load_phase()
@@ -237,6 +260,15 @@ def check(plan, res):
     touched_simul = [(l2, c2) for (l2, c2, path, t) in mt_events if path == 'simul_efun.c']
     nbin = 0
     for ph in phases:
+        # the typed parent/child pair: the child is valid source, so compiling it against the parent must succeed whether the
+        # parent came from its source or from its binary
+        tev = events(ph.get('typed_cycle'))
+        xr = [e.rest for e in tev if e.kind == 'R' and e.rest.startswith('XR t ')]
+        if xr and xr[-1].startswith('XR t err'):
+            frombin = any(e.kind == 'fs' and e.rest.startswith('open_r bin/g/tp.b ') and not e.rest.endswith('ret=-1') for e in tev)
+            logs = [e.rest for e in tev if e.kind == 'R' and e.rest.startswith('LOGERR')]
+            bad('typed', 'a valid child of g/tp (#pragma save_types, loaded from %s) does not compile: %s' % ('its binary' if frombin else 'source', (logs[0] if logs else xr[-1])[:160]),
+                'behaviour/saved-types-differ-with-binary' if frombin else 'behaviour/typed-child-does-not-compile')
         progs = ph['progs']
         inh = ph['inherit']
         def chain(x):
